@@ -1211,6 +1211,12 @@ func EvalProgram(progSrc string, files []InputFile, rootSelectors []string, stdo
 					if err != nil {
 						return &ev, err
 					}
+					if cell.Value.Tag == ValueNil {
+						// a selector that finds nothing yields a plain null, like
+						// `$ = <selector>` in BEGINFILE does, not a placeholder that
+						// could still be created in the document it was looked up in
+						cell = NewCell(NewValue(nil))
+					}
 					rootCells = append(rootCells, cell)
 				}
 			} else {
